@@ -484,3 +484,67 @@ Example C11_ex_linked_mask_ids :
       (og_ch (snd (simc_children fmt9 [] ex_masks_l (NCons ex_masked_l (NCons ex_masked_l (NCons ex_masked_l NNil))) true false ex_st0 empty_cache root_group))) =
   [Some "mL"; Some "mask1"; Some "mask3"].
 Proof. vm_compute. reflexivity. Qed.
+
+(* ---- final pass: conversion of definitions is demand-driven.
+   For EVERY instantiation: the converted tree and the cache depend on the clip-path / mask resolvers only at the links the tree
+   carries (node_free Ac Am: every clip-path link lies in Ac, every mask link in Am). *)
+Theorem C11_demand_driven :
+  forall (state : Type) (st_in_clip st_no_markers : state -> bool)
+         (conv_path : tag -> attrs -> conv_t state) (conv_image : attrs -> conv_t state) (conv_text : node -> conv_t state)
+         (conv_use : attrs -> option (option tag * attrs) -> conv_t state -> conv_t state -> conv_t state)
+         (conv_nested_svg : attrs -> conv_t state -> conv_t state) (obj_bbox : ogroup -> option qrect)
+         (res_clip res_mask res_clip' res_mask' : string -> state -> option qrect -> cache -> option string * cache)
+         (res_filter : attrs -> state -> option qrect -> cache -> option (list string) * cache)
+         (Ac Am : string -> bool),
+  (forall l, Ac l = true -> forall st bb c, res_clip' l st bb c = res_clip l st bb c) ->
+  (forall l, Am l = true -> forall st bb c, res_mask' l st bb c = res_mask l st bb c) ->
+  callbacks_ext state conv_use conv_nested_svg ->
+  forall (l : nodes) (top clip : bool) (st : state) (c : cache) (p : ogroup),
+  nodes_free Ac Am l = true ->
+  conv_children state st_in_clip st_no_markers conv_path conv_image conv_text conv_use conv_nested_svg obj_bbox
+                res_clip' res_mask' res_filter l top clip st c p =
+  conv_children state st_in_clip st_no_markers conv_path conv_image conv_text conv_use conv_nested_svg obj_bbox
+                res_clip res_mask res_filter l top clip st c p.
+Proof. exact demand_driven_children. Qed.
+Print Assumptions C11_demand_driven.
+
+(* Over the cache model: a mask / clipPath definition that no element of the tree and no other definition links is never
+   converted - with or without it (whatever it contains, wherever it stands among the definitions) the converted tree and the
+   cache are equal.  The converse (a linked definition IS converted and shows in tree and cache) is C11_ex_referenced_def_matters. *)
+Theorem C11_unreferenced_mask_no_influence : forall fmt clips (m1 m2 : defs_t) k dk l top clip st c p,
+  nodes_free any_key (not_key k) l = true -> no_link_to k (m1 ++ m2)%list ->
+  simc_children fmt clips (m1 ++ (k, dk) :: m2)%list l top clip st c p = simc_children fmt clips (m1 ++ m2)%list l top clip st c p.
+Proof. exact unreferenced_mask_no_influence. Qed.
+Print Assumptions C11_unreferenced_mask_no_influence.
+
+Theorem C11_unreferenced_clip_no_influence : forall fmt masks (m1 m2 : defs_t) k dk l top clip st c p,
+  nodes_free (not_key k) any_key l = true -> no_link_to k (m1 ++ m2)%list ->
+  simc_children fmt (m1 ++ (k, dk) :: m2)%list masks l top clip st c p = simc_children fmt (m1 ++ m2)%list masks l top clip st c p.
+Proof. exact unreferenced_clip_no_influence. Qed.
+Print Assumptions C11_unreferenced_clip_no_influence.
+
+(* converse, by witness: the SAME definition "m", once a rendered element links it, is converted: it appears in the tree and in
+   cache.masks; and the hypotheses of the theorems above are met by a non-trivial document *)
+Example C11_ex_referenced_def_matters :
+  nodes_free any_key (not_key "m") (NCons ex_masked NNil) = false /\
+  simc_children fmt9 [] [("m", mask_obb "m")] (NCons ex_masked NNil) true false ex_st0 empty_cache root_group <>
+  simc_children fmt9 [] [] (NCons ex_masked NNil) true false ex_st0 empty_cache root_group /\
+  nodes_free any_key (not_key "zz") (NCons ex_masked (NCons ex_zero_fm NNil)) = true /\
+  simc_children fmt9 [] [("zz", mask_obb "zz"); ("m", mask_obb "m")] (NCons ex_masked NNil) true false ex_st0 empty_cache root_group =
+  simc_children fmt9 [] [("m", mask_obb "m")] (NCons ex_masked NNil) true false ex_st0 empty_cache root_group.
+Proof. repeat split; try (vm_compute; reflexivity). vm_compute. discriminate. Qed.
+
+(* seed C11-15's shape: a polygon / polyline with a single point (or none) is in the property's list and invalid for the tables cut
+   from shapes.rs *)
+Definition ex_poly1 (t : tag) : node :=
+  Node (Some t)
+    {| a_id := "p"; a_display_none := false; a_ts_valid := true; a_ts_identity := true; a_req_ext := false;
+       a_features_known := true; a_syslang_ok := true; a_opacity := 1; a_blend_normal := true; a_isolate := false;
+       a_clip := None; a_mask := None; a_filter := FA_Absent;
+       a_width := 0; a_height := 0; a_r := 0; a_rx := 0; a_ry := 0; a_npoints := 1 |} NNil.
+Example C11_ex_single_point_poly_nonrendered :
+  spec_nonrendered (ex_poly1 T_Polygon) = true /\ spec_nonrendered (ex_poly1 T_Polyline) = true /\
+  zero_size T_Polygon (node_attrs (ex_poly1 T_Polygon)) = true /\ shape_valid T_Polygon (node_attrs (ex_poly1 T_Polygon)) = false /\
+  ignorable (ex_poly1 T_Polygon) = true /\
+  sim_elem (ex_poly1 T_Polygon) true false ex_st empty_cache root_group = (empty_cache, root_group).
+Proof. vm_compute. repeat split. Qed.
